@@ -53,7 +53,10 @@ pub const MAX_VIOLATIONS_PER_SHARD: usize = 40;
 impl Shard {
     pub fn hit(&mut self, key: &str) { *self.cov.entry(key.to_string()).or_default() += 1; }
 
-    pub fn add(&mut self, key: &str, n: u64) { *self.cov.entry(key.to_string()).or_default() += n; }
+    pub fn add(&mut self, key: &str, n: u64) {
+        let e = self.cov.entry(key.to_string()).or_default();
+        *e = e.saturating_add(n);
+    }
 
     pub fn max(&mut self, key: &str, n: u64) {
         let e = self.cov.entry(key.to_string()).or_default();
@@ -535,7 +538,7 @@ fn parent_main(e: &dyn Engine, args: &[String]) -> ! {
                         if k.starts_with("max.") {
                             *e = (*e).max(*n)
                         } else {
-                            *e += n
+                            *e = e.saturating_add(*n)
                         }
                     }
                 } else {
@@ -543,7 +546,12 @@ fn parent_main(e: &dyn Engine, args: &[String]) -> ! {
                     ent["evaluations"] = json!(ent["evaluations"].as_u64().unwrap() + sh.evaluations);
                     ent["shards_ok"] = json!(ent["shards_ok"].as_u64().unwrap() + 1);
                     for (k, n) in &sh.cov {
-                        *cov.entry(format!("{}.{}", tn, k)).or_default() += n;
+                        let e = cov.entry(format!("{}.{}", tn, k)).or_default();
+                        if k.starts_with("max.") {
+                            *e = (*e).max(*n)
+                        } else {
+                            *e = e.saturating_add(*n)
+                        }
                     }
                 }
                 for m in &sh.inconclusive {
